@@ -375,9 +375,22 @@ impl FileSpec {
                 }
             })
             .collect::<Vec<PathBuf>>();
-        log_files.sort_unstable();
+        // the suffixes must not influence the order, otherwise e.g. "r2024-06-09_13-24-35.txt"
+        // would be taken as newer than "r2024-06-09_13-24-35.restart-0000.txt"
+        log_files.sort_unstable_by_key(|path| self.file_name_without_suffixes(path));
         log_files.reverse();
         log_files
+    }
+
+    fn file_name_without_suffixes(&self, path: &Path) -> String {
+        let name = path.file_name().unwrap_or_default().to_string_lossy();
+        let name = name.strip_suffix(".gz").unwrap_or(&name);
+        self.o_suffix
+            .as_ref()
+            .and_then(|suffix| name.strip_suffix(suffix.as_str()))
+            .and_then(|name| name.strip_suffix('.'))
+            .unwrap_or(name)
+            .to_string()
     }
 
     pub(crate) fn filter_files(
